@@ -340,10 +340,18 @@ PROPS['C13'] = dict(
          'each compared with the one model function, and pairwise with each other by the oracle',
 )
 # ------------------------------------------------------------------ C14
+def c14_compare(c, a, m):
+    # call log (with arguments), outcome and value.  When the two sides disagree on whether the *generic* parser front end refuses the string
+    # (a Parse error on one side only), that is C05's; the protocol on the implementation side is then judged by the oracle alone.
+    pa, pm = trip(a), trip(m)
+    ea, em = pa[1].startswith('E Parse:'), pm[1].startswith('E Parse:')
+    if ea != em: return 'mismatch'
+    return (pa[0], vals(pa[1]), canon(pa[1]) == '!') == (pm[0], vals(pm[1]), canon(pm[1]) == '!')
+c14_compare.obs = lambda c, a: (trip(a)[0], vals(trip(a)[1]))
 PROPS['C14'] = dict(
     accepts=lambda c: c[0] == 'H',
     gen=lambda tier, rng: gens.gen_shape(rng, Q(tier, 10000, 200000)),
-    project=both(lambda c, p: (p[0], vals(p[1]), canon(p[1]) == '!')),
+    compare=c14_compare,
     rule='family of user-written shapes: conversion {always, never, only "custom"} x type rendering {lower-cased, raw, invalid} x 29 hook programs (fail, clear name, '
          'rewrite namespace/version/subpath, insert empty/valid/malformed qualifiers and checksums, mutate the type, combinations) x 19 parser inputs and builder inputs, '
          'plus random members and spellings; call log (arguments included), result and accessors compared with the model instantiated at the same member',
@@ -423,10 +431,14 @@ PROPS['C17'] = dict(
     assumptions=['feature selection is a build-time fact below the model: the Coq content is only that the model is one deterministic function'],
 )
 # ------------------------------------------------------------------ C18
+def c18_proj(c, line, is_impl):
+    # split result, and (when the PURL builds) its combined name and re-split; which error build() gives otherwise is C05/C09's
+    f = line.split('|')
+    return tuple(f[:2]) + (('E',) if len(f) == 3 else tuple(f[2:]))
 PROPS['C18'] = dict(
     accepts=lambda c: c[0] == 'N',
     gen=lambda tier, rng: gens.gen_comb(rng, Q(tier, 30000, 400000)),
-    project=whole,
+    project=c18_proj,
     rule='combined names with any number of "/" and ":" for the seven types (20 fixed shapes each, random strings); split, built PURL, combined_name and its re-split compared',
 )
 # ------------------------------------------------------------------ C19
